@@ -6,17 +6,24 @@ from ..evalprop import *
 
 PID = "C10"
 MANIFEST = {
-    "text": "Theorems over the transcribed printer and tokenizer: every 64-bit integer prints to a text that parses back to it; for EVERY readable character c (every code point outside the delimiter class) the printed form %c / %\\\\n %\\\\t %\\\\r %\\\\s %\\\\\\\\ followed by any delimiter-started rest reads back as the character token c with exactly that rest; for EVERY readable symbol name (any length) the name reads back as that symbol token; for EVERY string (any characters, any length, incl. quotes, backslashes, newlines, delimiters) the printed string literal reads back as that string token; each with the position bookkeeping. Nested lists are composed from these token round trips by the parser; the list-level round trip (exactly one datum, nothing left over, equal to the original with a string identified with the list of its characters, re-printing reproduces the text) is checked on the binary and in the model on generated data: boundary integers, all character classes (thorough: every Unicode scalar value), strings over a delimiter-rich alphabet, lists of every shape.",
-    "note": "The list-level statement is not a theorem yet (token-level statements are). Characters of the delimiter class ( ) \\\" ' ; , and whitespace without an escape cannot be written as character literals at all (open finding); grapheme clusters of several code points are outside the model. Trusted: Coq kernel; transcriptions of print/mod.rs and read/mod.rs (bound by correspondence); format!/parse::<i64> as modelled.",
-    "technique": "Coq token-level round-trip proofs (induction over names / strings / digits) + differential check of print and read + round-trip monitor on generated data",
+    "text": "THE PROPERTY AS A THEOREM over the transcribed printer and reader (C10_datum_round_trip): for EVERY abstract datum x (integers, characters, symbols, strings, nested lists of any shape, length and depth below the printer's depth limit) in the readable domain and every interpreter value v that denotes it (whatever source metadata it carries, a string being either the list of its characters or the (list c1 .. cn) form): print gives show x; read of that text returns exactly one value with the empty rest; that value denotes the same x; printing it again gives the same text. With more input behind the datum exactly its text is consumed (C10_datum_round_trip_rest). The abstraction is exact: a value denotes at most one datum (C10_denotes_is_a_function) and every value of the domain denotes one (C10_every_proper_value_denotes). Proved by induction over the datum from the token round trips (integers incl. i64::MIN, every readable character, every readable symbol name, every string incl. quotes/backslashes/delimiters), blank skipping and the parser's stack discipline. The excluded class is an open finding with its own refutation theorem (a delimiter character has no literal). Tied to the code by the differential check of print and read and a round-trip monitor on generated data (thorough: every Unicode scalar value).",
+    "note": "Characters of the delimiter class ( ) \\\" ' ; , and whitespace without an escape cannot be written as character literals at all (open finding; outside wf); grapheme clusters of several code points are outside the model; the reader model has no depth limit of its own (the native's depth check is on the evaluator side and is covered by the correspondence). Trusted: Coq kernel; transcriptions of print/mod.rs and read/mod.rs (bound by correspondence); format!/parse::<i64> as modelled.",
+    "technique": "Coq proof of the datum-level round trip (induction over data of any shape from token-level round-trip lemmas; abstraction relation proved functional and total) + differential check of print and read + round-trip monitor on generated data",
 }
 TARGETS = ["Properties/C10.v", "Eval/PreludeState.v"]
-IMPORTS = ["Data.Reader", "Data.Printer", "Data.ReaderProofs", "Data.RoundTrip", "Data.DecimalProofs", "Properties.C10"]
+IMPORTS = ["Data.Reader", "Data.Printer", "Data.ReaderProofs", "Data.RoundTrip", "Data.DecimalProofs", "Data.TokenLemmas", "Data.DatumRoundTrip", "Properties.C10"]
 THEOREMS = [
     ("C10_integer_round_trip", "forall z, in_i64 z = true -> parse_i64 (show_i64 z) = Some z"),
     ("C10_character_round_trip", "forall c rest cur, readable_char c = true -> atom_ending rest false = Some true -> exists l1 l2, next_token (print_char c ++ rest) false cur = Some (inl {| tv := TChr c; tloc := l1; trest := rest; tcur := l2 |})"),
     ("C10_symbol_round_trip", "forall c name rest cur, symbol_start c = true -> forallb symbol_char name = true -> atom_ending rest false = Some true -> exists l1 l2, next_token ((c :: name) ++ rest) false cur = Some (inl {| tv := TSym (c :: name); tloc := l1; trest := rest; tcur := l2 |})"),
     ("C10_string_round_trip", "forall t rest cur, exists l1 l2, next_token (print_string t ++ rest) false cur = Some (inl {| tv := TStr t; tloc := l1; trest := rest; tcur := l2 |})"),
+    ("C10_number_token_round_trip", "forall z rest cur, in_i64 z = true -> atom_ending rest false = Some true -> exists l1 l2, next_token (show_i64 z ++ rest) false cur = Some (inl {| tv := TNum z; tloc := l1; trest := rest; tcur := l2 |})"),
+    ("C10_datum_round_trip", "forall x v d fuel src line col, denotes v x -> wf x = true -> (ddepth x < fuel)%nat -> d + N.of_nat (ddepth x) <= MAX_RECURSION_DEPTH -> print_internal fuel v d = PrOk (show x) /\\ exists v' l, read_text src (show x) false line col = inl (v', [], l) /\\ denotes v' x /\\ print_internal fuel v' d = PrOk (show x)"),
+    ("C10_datum_round_trip_rest", "forall x rest src cur, wf x = true -> atom_ending rest false = Some true -> exists v' l, denotes v' x /\\ forall f, rd (ntok x + f) src (show x ++ rest) false cur [] false = inl (v', rest, l)"),
+    ("C10_denotes_is_a_function", "forall x v y, denotes v x -> denotes v y -> x = y"),
+    ("C10_every_proper_value_denotes", "forall v, proper v = true -> exists x, denotes v x"),
+    ("C10_print_of_a_datum", "forall x v d fuel, denotes v x -> (ddepth x < fuel)%nat -> d + N.of_nat (ddepth x) <= MAX_RECURSION_DEPTH -> print_internal fuel v d = PrOk (show x)"),
+    ("C10_delimiter_character_refuted", "readable_char c_open = false /\\ show (DChr c_open) = [c_pct; c_open] /\\ (forall v l, read_text SrcStdin (show (DChr c_open)) false 1 1 <> inl (v, [], l))"),
 ]
 
 def equivalent(a, b):
